@@ -66,6 +66,9 @@ fn field_attr(prog: &Program, n: usize, i: usize, f: &Field) -> String {
     if f.skip {
         opts.push("skip".into());
     }
+    if f.skip_false {
+        opts.push("skip = false".into());
+    }
     if f.multiple {
         opts.push("multiple".into());
     }
@@ -74,6 +77,8 @@ fn field_attr(prog: &Program, n: usize, i: usize, f: &Field) -> String {
     }
     match f.with {
         With::None => {}
+        With::Path if f.ty == Ty::OptU32 => opts.push("with = vrt::support::with_opt_u32".into()),
+        With::Closure if f.ty == Ty::OptU32 => opts.push("with = |m| vrt::support::with_opt_u32(m)".into()),
         With::Path => opts.push("with = vrt::support::with_u32".into()),
         With::Closure => opts.push("with = |m| vrt::support::with_u32(m)".into()),
     }
